@@ -66,13 +66,14 @@ def explore_world(task):
     res = {"worlds": 1, "turns": 0, "conversations": 0, "rejections": 0, "rewrites": 0, "llm_calls": 0,
            "rail_calls": 0, "viol": []}
     try:
-        world = rw.v1_world(in_order=order, out_order=("out1",), dialog=dialog, exceptions=exceptions)
+        world = rw.v1_world(in_order=order, out_order=("out1",), dialog=(dialog is True), exceptions=exceptions,
+                            extra_yaml=("passthrough: True\n" if dialog == "passthrough" else ""))
     except Exception as e:
         res["viol"].append((f"world-rejected:v1", repr(e), {"task": list(map(str, task))}))
         return res
     info0 = {"engine": "E3-world", "prop": "C01", "version": version, "order": list(order), "dialog": dialog, "exceptions": exceptions}
     outs = outcomes(order)
-    paths = ["predef", "llm"] if dialog else ["general"]
+    paths = ["predef", "llm"] if dialog is True else ["general"]
     nonce = [0]
 
     def expand(messages, banned, t, hist):
@@ -111,7 +112,7 @@ def explore_world(task):
             res["rail_calls"] += len(in_calls)
 
             def bad(sig, what):
-                res["viol"].append((f"{sig}:v1:{'dialog' if dialog else 'nodialog'}", what, info))
+                res["viol"].append((f"{sig}:v1:{'passthrough' if dialog == 'passthrough' else ('dialog' if dialog else 'nodialog')}", what, info))
 
             if turn.exc is not None:
                 bad("generate-raised", f"{turn.exc!r}")
@@ -145,8 +146,11 @@ def explore_world(task):
                 c = turn.llm_calls[0] if turn.llm_calls else None
                 if c is not None and cur_marker not in c["prompt"]:
                     bad("prompt-lacks-current-user-text", f"task {c['task']}: prompt does not contain the (rewritten) user text marker {cur_marker}")
+            # passthrough mode sends the client's raw message list to the LLM: earlier turns appear as the
+            # client supplied them (the statement is about the message being processed) -> only this turn's text
+            check_banned = new_banned if dialog != "passthrough" else ({marker} if cur != user_text else set())
             for c in turn.llm_calls:
-                hit = [b for b in new_banned if b in c["prompt"]]
+                hit = [b for b in check_banned if b in c["prompt"]]
                 if hit:
                     bad("pre-rewrite-text-in-prompt", f"task {c['task']} (turn {t}): prompt contains the pre-rewrite text {hit[0]}")
                     break
@@ -179,8 +183,10 @@ def tasks(tier):
     seen = set()
     for max_rails, turns in plan:
         for order in orders(max_rails, reduced=(tier == "quick")):
-            for dialog in (False, True):
+            for dialog in (False, True, "passthrough"):
                 for exc in (False, True):
+                    if dialog == "passthrough" and (exc or len(order) > 2):
+                        continue
                     key = (order, dialog, exc, turns)
                     if (order, dialog, exc) in seen and turns <= 2:
                         continue
@@ -227,7 +233,8 @@ def replay(rp):
     if rp.get("version") == "2.x":
         from vf.props import c01_v2
         return c01_v2.replay(rp)
-    world = rw.v1_world(in_order=tuple(rp["order"]), out_order=("out1",), dialog=rp["dialog"], exceptions=rp["exceptions"])
+    world = rw.v1_world(in_order=tuple(rp["order"]), out_order=("out1",), dialog=(rp["dialog"] is True), exceptions=rp["exceptions"],
+                        extra_yaml=("passthrough: True\n" if rp["dialog"] == "passthrough" else ""))
     msgs = []
     for step in rp["history"]:
         verdicts = {"out1": "A"}
